@@ -100,12 +100,22 @@ let handle line = match parse line with
   | [A "prt"; g; pd; c; bars; tbl; I nq; tr] ->
     vopt (fun (o, d) -> L [vpout o; vpd d])
       (pam_routing_on (circ_of c) (bools bars) (tbl_of tbl) (nat_of_int nq) (ptrace_of tr) (pd_of (adj_of g) pd))
+  (* ppipe machine circ bars table nq placer layout-traces routing-trace : PamPipe.pam_pipeline *)
+  | [A "ppipe"; g; c; bars; tbl; I nq; pl; ltr; rtr] ->
+    let ltr = (match ltr with A "N" -> None | x -> Some (pltr_of x)) in
+    vopt (fun (o, d) -> L [vpout o; vpd d])
+      (pam_pipeline (adj_of g) (circ_of c) (bools bars) (tbl_of tbl) (nat_of_int nq) (placer_of pl) ltr (ptrace_of rtr))
   (* pass cg circ nq fwd modify pi0 trace *)
   | [A "pass"; cg; c; I nq; fwd; md; pi0; tr] ->
     let cg = adj_of cg and c = circ_of c and fwd = bool_of fwd and md = bool_of md in
     let s0 = init c (nat_of_int nq) fwd (nats pi0) in
     let (status, s, fs, stricts) = run_trace cg c fwd md s0 (trace_of tr) in
     L [status; vnats s.pi; L fs; vout s.out; L (List.map vbool stricts); L (List.map (fun (a,b) -> L [I (int_of_nat a); I (int_of_nat b)]) s.lead)]
+  (* strict cg circ nq fwd modify pi0 trace : does SabreStrict.replay_strict accept the whole trace? *)
+  | [A "strict"; cg; c; I nq; fwd; md; pi0; tr] ->
+    let cg = adj_of cg and c = circ_of c and fwd = bool_of fwd and md = bool_of md in
+    let s0 = init c (nat_of_int nq) fwd (nats pi0) in
+    vbool (match replay_strict cg c fwd md s0 (trace_of tr) with Some _ -> true | None -> false)
   | [A "dag"; c; I nq] ->
     let c = circ_of c in
     let n = List.length c in
